@@ -33,7 +33,7 @@ TYPES = {"offer": 0, "pranswer": 1, "answer": 2, "rollback": 3}
 TYPE_NAMES = {v: k for k, v in TYPES.items()}
 SIG = {"stable": 0, "have-local-offer": 1, "have-remote-offer": 2, "have-local-pranswer": 3,
        "have-remote-pranswer": 4, "closed": 5}
-NCFG = 4
+NCFG = 8
 
 OK, INVALID, VALUE, OTHER = 0, 1, -1, -2
 CASE_DEADLINE = 30.0
@@ -119,21 +119,24 @@ async def _run_pair(cfg, ops):
         # calls and make the run depend on timing; the property is about call SEQUENCES, so the
         # self-shutdown is switched off here (concurrent close belongs to C19).
         pc._RTCPeerConnection__closeTask = "disabled-by-harness"
-    if cfg == 0:
-        pcs[0].addTrack(AudioStreamTrack())
-        pcs[0].createDataChannel("chat")
-        pcs[1].addTrack(AudioStreamTrack())
-    elif cfg == 1:
-        pcs[0].createDataChannel("chat")
-    elif cfg == 2:
-        pcs[0].addTrack(AudioStreamTrack())
-        pcs[1].addTrack(AudioStreamTrack())
+    # cfg 0-3: four set-ups; cfg 4-7: the same with the two peers swapped
+    a, b = (pcs[1], pcs[0]) if cfg >= 4 else (pcs[0], pcs[1])
+    base = cfg % 4
+    if base == 0:
+        a.addTrack(AudioStreamTrack())
+        a.createDataChannel("chat")
+        b.addTrack(AudioStreamTrack())
+    elif base == 1:
+        a.createDataChannel("chat")
+    elif base == 2:
+        a.addTrack(AudioStreamTrack())
+        b.addTrack(AudioStreamTrack())
     else:
-        pcs[0].addTrack(AudioStreamTrack())
-        pcs[0].addTransceiver("video", direction="recvonly")
-        pcs[0].createDataChannel("chat")
-        pcs[1].addTrack(AudioStreamTrack())       # same order on both sides: the mids of the two peers
-        pcs[1].addTrack(VideoStreamTrack())       # agree (mid collisions under glare belong to C03)
+        a.addTrack(AudioStreamTrack())
+        a.addTransceiver("video", direction="recvonly")
+        a.createDataChannel("chat")
+        b.addTrack(AudioStreamTrack())       # same order on both sides: the mids of the two peers
+        b.addTrack(VideoStreamTrack())       # agree (mid collisions under glare belong to C03)
     events = [0, 0]
     for i in (0, 1):
         def on_change(i=i):
@@ -218,9 +221,19 @@ async def _run_pair(cfg, ops):
                             [m[:2] for m in passed[1]])
                     known[id(o)] = handle if good else -1
                 slots.append([known[id(o)]])
-            ld, rd = pc.localDescription, pc.remoteDescription
-            obs.append([res, events[p] - ev0, SIG[pc.signalingState]] + slots +
-                       [[TYPES[ld.type]] if ld is not None else [], [TYPES[rd.type]] if rd is not None else []])
+            # the public localDescription / remoteDescription must show the pending-or-current slot
+            vis = []
+            for pub, pend, cur in ((pc.localDescription, SLOTS[0], SLOTS[1]), (pc.remoteDescription, SLOTS[2], SLOTS[3])):
+                o = getattr(pc, pend) or getattr(pc, cur)
+                if pub is None and o is None:
+                    vis.append([])
+                elif pub is None or o is None or pub.type != o.type or \
+                        [m[:2] for m in scan_sdp(pub.sdp, midcodes)] != \
+                        [[KINDS.get(m.kind, 9), midcodes.get(m.rtp.muxId, -7)] for m in o.media]:
+                    vis.append([-1])
+                else:
+                    vis.append([TYPES[pub.type]])
+            obs.append([res, events[p] - ev0, SIG[pc.signalingState]] + slots + vis)
             descs.append([handle] + passed if passed is not None else [])
     finally:
         for pc in pcs:
@@ -340,7 +353,56 @@ class C14(Check):
     props_file = "Props/C14.v"
     models = ["Jsep"]
     case_timeout = 60.0
-    random_quick = 3000
+    random_quick = 2000
+    level_note = (
+        "Theorems are about Model/Jsep.v (one peer connection; descriptions abstracted to type + per media section "
+        "kind/mid/ICE/DTLS/rtcp-mux). Guard lists, type/role/kind lists and state assignments are regenerated from the "
+        "Python ast (Gen/Jsep.v); statement order, slot writes and the implicit offer/answer choice are tied by the "
+        "differential run against real RTCPeerConnection pairs. SDP parsing, offer/answer construction, codec "
+        "negotiation, ICE/DTLS start-up are not modelled; an exception raised by them after validation is outside the "
+        "model (none occurs in the generated stream). Types pranswer/rollback are outside the property's alphabet. The "
+        "self-initiated close() on remote DTLS shutdown is disabled in the harness (calls are strictly sequential).")
+    rule = ("all call sequences of length <= 4 over the 16-symbol core alphabet {createOffer, createAnswer, "
+            "setLocal(offer|answer|implicit), setRemote(offer|answer), close} x {peer 0, peer 1}, and all of length <= 3 "
+            "over the 30-symbol full alphabet (adds setRemote of: an answer with an m-section missing, answers without "
+            "ice-ufrag / rtcp-mux / a=setup / with a=setup:actpass, offers without ice-ufrag / a=setup) -- enumerated up "
+            "to renaming of the two peers (first call on peer 0; the 4 peer set-ups audio+data/audio, data/none, "
+            "audio/audio, audio+video+data/audio+video come in both orientations); plus random sequences of length 5-40 "
+            "biased towards legal continuations (local edits, offers without rtcp-mux or with an m-section dropped, a few "
+            "pranswer/rollback types); thorough adds 1M sampled sequences of length 5-6; distinct by (case, observations); "
+            "non-trivial = at least one state-changing call succeeded and at least one later call on that peer was rejected")
+
+    def __init__(self):
+        self.state = "stable"
+        self.offer_keys = {"L": None, "R": None}   # media of the last offer applied on each side
+
+    def implicit_type(self):
+        return "answer" if self.state in ("have-remote-offer", "have-local-pranswer") else "offer"
+
+    def next(self, side, typ):
+        return self.TABLE.get((self.state, side, typ))
+
+
+def defect_of(side, typ, media):
+    """Which requirement of the property a description misses (None = well formed)."""
+    for kind, mid, ice, dtls, mux in media:
+        if not ice:
+            return "ice-credentials"
+        if typ == "answer" and dtls not in (2, 3):
+            return "dtls-role"
+        if side == "R" and dtls == 0:
+            return "dtls-role"
+        if kind in (0, 1) and not mux:
+            return "rtcp-mux"
+    return None
+
+
+class C14(Check):
+    prop = "C14"
+    props_file = "Props/C14.v"
+    models = ["Jsep"]
+    case_timeout = 60.0
+    random_quick = 2000
     level_note = (
         "Theorems are about Model/Jsep.v (one peer connection; descriptions abstracted to type + per media section "
         "kind/mid/ICE/DTLS/rtcp-mux). Guard lists, type/role/kind lists and state assignments are regenerated from the "
@@ -372,22 +434,25 @@ class C14(Check):
     def _plan(self, tier):
         c, f = len(core_alphabet()), len(full_alphabet())
         if tier == "quick":
-            return sum(c ** k for k in range(1, 5)) + sum(f ** k for k in range(1, 4)) \
-                - sum(c ** k for k in range(1, 4)) + self.random_quick
+            return (sum(c ** k for k in range(1, 5)) + sum(f ** k for k in range(1, 4))
+                    - sum(c ** k for k in range(1, 4))) // 2 + self.random_quick
         return self._plan("quick") + self.thorough_sampled + self.thorough_random
 
-    thorough_sampled = 500000
-    thorough_random = 100000
+    thorough_sampled = 1000000
+    thorough_random = 150000
 
     def _enumerated(self):
+        """All sequences whose FIRST call is on peer 0: a sequence starting on peer 1 is the same
+        sequence with the peers renamed, and the set-ups come in both orientations (cfg 4-7)."""
         core, full = core_alphabet(), full_alphabet()
         coreset = {json.dumps(a) for a in core}
         for k in range(1, 5):
             for seq in itertools.product(core, repeat=k):
-                yield list(seq)
+                if seq[0][0] == 0:
+                    yield list(seq)
         for k in range(1, 4):
             for seq in itertools.product(full, repeat=k):
-                if all(json.dumps(a) in coreset for a in seq):
+                if seq[0][0] != 0 or all(json.dumps(a) in coreset for a in seq):
                     continue
                 yield list(seq)
 
